@@ -163,7 +163,15 @@ def instrumented_codes():
 
 
 def entered_managers(rec):
-    return tuple(id(e.mgr) for e in rec.shadow if e.state == "entered")
+    """(manager identity, line of its with statement) for every entered manager: the
+    snapshot must pair each manager with the with-block it really belongs to."""
+    items = getattr(rec.W.prog, "items", {})
+    out = []
+    for e in rec.shadow:
+        if e.state == "entered":
+            info = items.get((rec.name, e.k))
+            out.append((id(e.mgr), info["line"] if info else None))
+    return tuple(out)
 
 
 def run_racing(ctx):
@@ -187,6 +195,11 @@ def run_racing(ctx):
     state = {"snapshots": None, "rec": None, "progress": 0}
 
     def on_boundary(code, offset, kind):
+        if state.get("skip", 0) > 0:
+            # hand-overs start at a tape-chosen boundary of the call, so that late
+            # windows (after the consistency loop) are reached as often as early ones
+            state["skip"] -= 1
+            return False
         if kind == "resume" and offset <= 6 and names.get(id(code)) == "_parse_exception_table":
             # one call per attempt of the consistency loop (+ one after it)
             state["pet_starts"] = state.get("pet_starts", 0) + 1
@@ -242,6 +255,7 @@ def run_racing(ctx):
                 if o is not tg:
                     others.update(id(r.pyframe) for r in o.W.frames)
             state["progress"] = 0
+            state["skip"] = t.choose(100) if t.choose(2) else 0
             if what == 0 or what == 2:
                 # extract(thread) under pre-emption
                 state["snapshots"] = None
@@ -297,7 +311,12 @@ def run_racing(ctx):
                 state["rec"] = None
                 if res is not None:
                     try:
-                        got = tuple(id(res.stack[b.level - 1].__self__) for b in res.blocks if b.handler in with_info)
+                        has_lines = bool(getattr(W.prog, "items", None))
+                        got = tuple(
+                            (id(res.stack[b.level - 1].__self__), with_info[b.handler].start_line if has_lines else None)
+                            for b in res.blocks
+                            if b.handler in with_info
+                        )
                     except Exception as e:
                         raise Violation(
                             "c07_inconsistent_snapshot",
